@@ -406,8 +406,27 @@ func (c *Ctx) fold(cond ssa.Value) (bool, bool) {
 		neg = !neg
 	}
 	b, ok := cond.(*ssa.BinOp)
-	if !ok || (b.Op != token.EQL && b.Op != token.NEQ) {
+	if !ok {
+		// a bool-typed discriminator used directly as the condition
+		for _, a := range c.Assume {
+			if a.ProvPat != "" && (a.Value == "true" || a.Value == "false") && prov.Match(a.ProvPat, prov.Of(cond)) {
+				v := a.Value == "true"
+				if a.NotEqual {
+					v = !v
+				}
+				if neg {
+					v = !v
+				}
+				return v, true
+			}
+		}
 		return false, false
+	}
+	if !isCompare(b.Op) {
+		return false, false
+	}
+	if b.Op != token.EQL && b.Op != token.NEQ {
+		return c.foldOrder(b, neg)
 	}
 	var cst *ssa.Const
 	var other ssa.Value
@@ -1034,4 +1053,143 @@ func (c *Ctx) Listed(r Rejection, gates []Gate) (string, bool) {
 		}
 	}
 	return "", false
+}
+
+// foldOrder evaluates x OP const (or const OP x) for an ordering operator when
+// an assumption fixes x to a numeric value.
+func (c *Ctx) foldOrder(b *ssa.BinOp, neg bool) (bool, bool) {
+	var cst *ssa.Const
+	var other ssa.Value
+	swapped := false
+	if k, ok := b.Y.(*ssa.Const); ok {
+		cst, other = k, b.X
+	} else if k, ok := b.X.(*ssa.Const); ok {
+		cst, other, swapped = k, b.Y, true
+	} else {
+		return false, false
+	}
+	if cst.Value == nil || cst.Value.Kind() != constant.Int {
+		return false, false
+	}
+	if _, isC := other.(*ssa.Const); isC {
+		return false, false
+	}
+	for _, a := range c.Assume {
+		if a.NotEqual {
+			continue
+		}
+		match := (a.TypeName != "" && typeNameOf(other.Type()) == a.TypeName) || (a.ProvPat != "" && prov.Match(a.ProvPat, prov.Of(other)))
+		if !match {
+			continue
+		}
+		av := constant.MakeFromLiteral(a.Value, token.INT, 0)
+		if av.Kind() != constant.Int {
+			return false, false
+		}
+		op := b.Op
+		l, r := av, cst.Value
+		if swapped {
+			l, r = cst.Value, av
+		}
+		res := constant.Compare(l, op, r)
+		if neg {
+			res = !res
+		}
+		return res, true
+	}
+	return false, false
+}
+
+// PhiUnder: the set of incoming values (as provenance terms) that the phi named
+// name can receive on edges reachable from the entry under the assumptions.
+func (c *Ctx) PhiUnder(fn *ssa.Function, name string) []string {
+	set := map[string]bool{}
+	seen := map[*ssa.BasicBlock]bool{fn.Blocks[0]: true}
+	stack := []*ssa.BasicBlock{fn.Blocks[0]}
+	for len(stack) > 0 {
+		b := stack[len(stack)-1]
+		stack = stack[:len(stack)-1]
+		var succs []*ssa.BasicBlock
+		if ifi, ok := b.Instrs[len(b.Instrs)-1].(*ssa.If); ok {
+			if v, known := c.fold(ifi.Cond); known {
+				if v {
+					succs = b.Succs[:1]
+				} else {
+					succs = b.Succs[1:]
+				}
+			} else {
+				succs = b.Succs
+			}
+		} else {
+			succs = b.Succs
+		}
+		for _, s := range succs {
+			pi := predIndex(s, b)
+			for _, in := range s.Instrs {
+				ph, ok := in.(*ssa.Phi)
+				if !ok {
+					break
+				}
+				if ph.Comment == name && pi >= 0 {
+					set[prov.Of(ph.Edges[pi])] = true
+				}
+			}
+			if !seen[s] {
+				seen[s] = true
+				stack = append(stack, s)
+			}
+		}
+	}
+	var out []string
+	for k := range set {
+		out = append(out, k)
+	}
+	sort.Strings(out)
+	return out
+}
+
+// ExitsUnder describes the exits reachable under the assumptions: for each
+// reachable Return the provenance of result idx ("panic" for Panic exits).
+func (c *Ctx) ExitsUnder(fn *ssa.Function, idx int) []string {
+	set := map[string]bool{}
+	seen := map[*ssa.BasicBlock]bool{fn.Blocks[0]: true}
+	stack := []*ssa.BasicBlock{fn.Blocks[0]}
+	for len(stack) > 0 {
+		b := stack[len(stack)-1]
+		stack = stack[:len(stack)-1]
+		switch t := b.Instrs[len(b.Instrs)-1].(type) {
+		case *ssa.Return:
+			if idx < len(t.Results) {
+				set[prov.Of(t.Results[idx])] = true
+			}
+		case *ssa.Panic:
+			set["panic"] = true
+		}
+		var succs []*ssa.BasicBlock
+		if ifi, ok := b.Instrs[len(b.Instrs)-1].(*ssa.If); ok {
+			if v, known := c.fold(ifi.Cond); known {
+				if v {
+					succs = b.Succs[:1]
+				} else {
+					succs = b.Succs[1:]
+				}
+			} else {
+				succs = b.Succs
+			}
+		} else {
+			succs = b.Succs
+		}
+		for _, s := range succs {
+			if !seen[s] {
+				seen[s] = true
+				stack = append(stack, s)
+			}
+		}
+	}
+	var out []string
+	for k := range set {
+		out = append(out, k)
+	}
+	sort.Strings(out)
+	return out
 }
